@@ -553,10 +553,12 @@ func runRouterScenario(sc routerScenario) *routerResult {
 			continue
 		}
 		time.Sleep(2 * time.Millisecond)
+		obsNow := e.observe()
 		if f[0] != "wait" && f[0] != "storm" && f[0] != "sleep" && f[0] != "expire" {
 			// a detector pass that happens to fall inside another action rebuilds the list behind the
-			// script's back: what follows depends on its phase (monitor-only from here on)
-			listAfter, _, _, _, _, _, _ := e.c.VerifClientSnapshot()
+			// script's back: what follows depends on its phase (monitor-only from here on). The list is
+			// read from the observation itself, so that no pass can slip in between the two.
+			listAfter := parseList(obsNow, "list")
 			want := strings.Join(listBefore, ",")
 			if f[0] == "update" {
 				want = ""
@@ -574,7 +576,7 @@ func runRouterScenario(sc routerScenario) *routerResult {
 			}
 		}
 		res.actions = append(res.actions, rec)
-		res.obs = append(res.obs, e.observe())
+		res.obs = append(res.obs, obsNow)
 	}
 	e.rt.mu.Lock()
 	res.rtForms = append([]string(nil), e.rt.forms...)
